@@ -11,7 +11,8 @@ const (
 	tPtrBase   = 8  // 8..15: *V0..*V7
 	tIfaceBase = 16 // 16..19: I0..I3
 	tBundle    = 20 // VB: a plain struct of two carriers
-	nTypes     = 21
+	tAny       = 21 // interface{}: any value is assignable to it, so a mixed-up key is delivered silently
+	nTypes     = 22
 )
 
 var typeTab [nTypes]reflect.Type
@@ -28,12 +29,13 @@ func init() {
 	typeTab[18] = reflect.TypeOf((*I2)(nil)).Elem()
 	typeTab[19] = reflect.TypeOf((*I3)(nil)).Elem()
 	typeTab[tBundle] = reflect.TypeOf(VB{})
+	typeTab[tAny] = reflect.TypeOf((*interface{})(nil)).Elem()
 	for i := range typeTab {
 		typeName[i] = typeTab[i].String()
 	}
 }
 
-func isIface(t int) bool { return t >= tIfaceBase && t < tBundle }
+func isIface(t int) bool { return (t >= tIfaceBase && t < tBundle) || t == tAny }
 
 // asPtr returns a pointer to a nil interface of iface type t, as dig.As wants.
 func asPtr(t int) interface{} {
@@ -72,6 +74,9 @@ func mkVal(t int, tok *Tok) reflect.Value {
 	panic("mkVal")
 }
 
+// alienTok stands for a delivered value that no harness function produced.
+var alienTok = &Tok{Fn: -1, Exec: -1}
+
 // tokOf extracts the token of a value of any universe type (nil for zero values).
 func tokOf(v reflect.Value) *Tok {
 	for v.Kind() == reflect.Interface || v.Kind() == reflect.Ptr {
@@ -79,6 +84,11 @@ func tokOf(v reflect.Value) *Tok {
 			return nil
 		}
 		v = v.Elem()
+	}
+	if v.Kind() == reflect.Slice || v.Kind() == reflect.Map || v.Kind() == reflect.Func || v.Kind() == reflect.Chan {
+		// something that is no value of the universe at all (e.g. a whole slice delivered where one
+		// element of type interface{} was asked for)
+		return alienTok
 	}
 	if v.Kind() != reflect.Struct || v.NumField() == 0 {
 		return nil
